@@ -32,6 +32,7 @@ Section Inst.
   Variable T : tables.
   Variable I : ionq_tables.
   Variable P : pq_tables.
+  Variable RP : repr_tables.
 
   (* writer output, then the reader applied to it *)
   Definition iq_case (c : fcirc Z) : string :=
@@ -49,5 +50,5 @@ Section Inst.
             ++ ":p=" ++ show_oparam (rf_param Z f)
             ++ ":v=" ++ (match rf_var Z f with None => "N" | Some b => show_bool b end).
   Definition repr_case (g : zgate) : string :=
-    show_repr_fields (gate_repr Z g) ++ " # " ++ show_res show_gate (repr_eval Z T (gate_repr Z g)).
+    show_repr_fields (gate_repr Z RP g) ++ " # " ++ show_res show_gate (repr_eval Z T (gate_repr Z RP g)).
 End Inst.
